@@ -45,6 +45,11 @@ def base_form(rng, i):
         f.survey.append(Row("q", "decimal", "smallnum", {"label": "s", "default": rng.choice(["0.00001", "0.0000001", "0.000025", "0.00012345678901234", "0.000000003"]),
                                                        "constraint": ". > " + rng.choice(["0.00001", "0.0000004"])}))
         f.survey.append(Row("q", "integer", "longint", {"label": "i", "default": rng.choice(["1234567890123456", "2024010112", "9007199254740992", "123456789012"])}))
+    if i % 4 == 0:
+        # both spellings of the id column on the settings sheet (a documented pair: form_id wins, with a warning)
+        f.settings.pop("id_string", None)
+        f.settings["form_id"] = f.settings.get("form_id") or f"fid{i}"
+        f.settings["id_string"] = rng.choice([f"ids{i}", f.settings["form_id"]])
     if i % 5 == 0:
         f.external_choices = [{"list_name": "ext", "name": f"e{k}", "label": f"E {k}", "grp": f"g{k % 2}"} for k in range(3)]
         f.survey.append(Row("q", "text", "extsel_src", {"label": "src"}))
@@ -248,6 +253,11 @@ def run_shard(ctx):
                                 rd_[h_] = rng.choice(["", "", " ", "  ", "\t", "\u00a0"])
                                 filled += 1
                 o = drive.call_convert(db, **dict(form.args))
+                if i % 4 == 0:
+                    # ... and the caller keeps its dict and converts it again (first plain, then pretty-printed, then plain): the third answer counts
+                    drive.call_convert(db, pretty_print=True, **dict(form.args))
+                    o = drive.call_convert(db, **dict(form.args))
+                    ctx.ctr("dict_converted_three_times")
                 ctx.ctr("dict_blank_cell_cases")
                 ctx.case(sig=f"{sig}|dict|blank-cells")
                 d = outcome_diff(refb, o)
@@ -619,6 +629,23 @@ def run_shard(ctx):
         compare_all(ctx, form, cs, sig, variant, ["xlsx", "xls"] + (["md", "csv"] if j <= 2 and md_representable(cs) else []), rng)
         reader_postconditions(ctx, cs, form, variant)
         ctx.ctr("empty_run_cases")
+        # the same header-less columns with header cells that hold only blanks (a space, a no-break space, a tab typed by accident): still no header
+        if i % 2 == 1:
+            ws = {n_: (list(h_), [list(r_) for r_ in rows_]) for n_, (h_, rows_) in cs.items()}
+            hh = ws[sh2][0]
+            for ci_ in range(len(hh)):
+                if hh[ci_] is None:
+                    hh[ci_] = rng.choice([" ", "  ", "\u00a0", "\t", " \u00a0 "])
+            refw = drive.call_convert(render.to_dict(cs), **dict(form.args))
+            if refw.ok or refw.exc_is_pyxform:
+                for fmt_ in ("xlsx", "xls"):
+                    o = drive.convert_sheets(ws, fmt=fmt_, channel=rng.choice(["bytes", "bytesio", "bytes_implicit"]), args=dict(form.args), render_kw={"typed": True})
+                    ctx.ctr("blank_text_header_cases")
+                    ctx.case(sig=f"{sig}|{fmt_}|blank-text-headers|{j}")
+                    d = outcome_diff(refw, o)
+                    if d and not ("missing mapping" in (refw.exc_msg or "")):
+                        ctx.viol(f"differs:{fmt_}:content:header-cells-holding-only-blanks:{d[0]}", f"[{fmt_}; {j} header cells on '{sh2}' hold only blanks] differs from the same sheet with empty header cells in {d[0]}: {d[1]}"[:900],
+                                 common.witness(form, fmt=fmt_, variant="blank-text-headers", sheets=_jsonable(ws)))
     # ---- fixtures: legacy .xls re-rendered as .xlsx must convert identically
     xls_files = common.fixture_files((".xls",))
     for j, path in enumerate(xls_files):
